@@ -84,6 +84,53 @@ def _check_nseg_graph(n, edges):
     return None
 
 
+def snake(rng, h, w, tries=40):
+    """A long diagonal chain of pairwise non-adjacent cells that starts on the border and otherwise stays inside
+    (deep rank chains are what a too-small rank range breaks)."""
+    best = []
+    for _ in range(tries):
+        start = rng.choice([(0, x) for x in range(w)] + [(h - 1, x) for x in range(w)] + [(y, 0) for y in range(h)] + [(y, w - 1) for y in range(h)])
+        chain = [start]
+        used = {start}
+        while True:
+            y, x = chain[-1]
+            opts = []
+            for dy, dx in ((-1, -1), (-1, 1), (1, -1), (1, 1)):
+                c = (y + dy, x + dx)
+                if not (0 < c[0] < h - 1 and 0 < c[1] < w - 1) or c in used:
+                    continue
+                # not orthogonally adjacent to the chain, and diagonal only to its predecessor
+                if any((c[0] + a, c[1] + b) in used for a, b in ((0, 1), (1, 0), (0, -1), (-1, 0))):
+                    continue
+                if any((c[0] + a, c[1] + b) in used and (c[0] + a, c[1] + b) != (y, x) for a, b in ((-1, -1), (-1, 1), (1, -1), (1, 1))):
+                    continue
+                opts.append(c)
+            if not opts:
+                break
+            c = rng.choice(opts)
+            chain.append(c)
+            used.add(c)
+        if len(chain) > len(best):
+            best = chain
+    return best
+
+
+def _check_big(h, w, patterns):
+    from cspuz import graph as G
+
+    def builder(s):
+        arr = s.bool_array((h, w))
+        return lambda: G.active_vertices_not_adjacent_and_not_segmenting(s, arr)
+    decls, cs, base, _ = graphs.real_program(builder)
+    edges = graphs.grid_edges(h, w)
+    for pat in patterns:
+        want = (not any(pat[u] and pat[v] for u, v in edges)) and graphs.is_connected(h * w, edges, [not p for p in pat])
+        got = exprio.z3_solve(decls, cs, base, {f"b{i}": pat[i] for i in range(h * w)}) is not None
+        if got != want:
+            return list(pat), got, want
+    return None
+
+
 def search(ctx, why, maxcells=None):
     found = {}
     maxcells = maxcells or ctx.n(9, 12)
@@ -107,6 +154,29 @@ def search(ctx, why, maxcells=None):
             if bad and "nadj-grid" not in found:
                 found["nadj-grid"] = Finding("nadj-grid", f"active_vertices_not_adjacent on {h}x{w}, pattern {bad[0]}: sat={bad[1]} expected {bad[2]}",
                                              {"h": h, "w": w, "pattern": bad[0], "kind": "nadj-grid"})
+    # larger boards: long diagonal chains (+ one closing / one extra cell), which exercise the rank range
+    for (h, w) in ((5, 5), (6, 6), (7, 7), (8, 8), (5, 8), (8, 5)):
+        if "nseg-grid:2d" in found:
+            break
+        pats = []
+        for _ in range(ctx.n(4, 12)):
+            ch = snake(ctx.rng, h, w)
+            for cut in {len(ch), max(1, len(ch) - 1), max(1, len(ch) // 2)}:
+                cells = set(ch[:cut])
+                pats.append(tuple((y, x) in cells for y in range(h) for x in range(w)))
+            # a variant touching the border a second time (must be rejected)
+            extra = set(ch) | {(h - 1, w - 1)}
+            pats.append(tuple((y, x) in extra for y in range(h) for x in range(w)))
+        try:
+            bad = _check_big(h, w, pats)
+        except Exception as e:
+            bad = ("exception", core.err_name(e), str(e)[:200])
+        ctx.count("search:nseg-grid-snakes", len(pats))
+        if bad:
+            found["nseg-grid:2d"] = Finding(
+                "nseg-grid:2d",
+                f"active_vertices_not_adjacent_and_not_segmenting on a {h}x{w} BoolArray2D, pattern {bad[0]}: satisfiable={bad[1]} "
+                f"but the graph definition gives {bad[2]}", {"h": h, "w": w, "pattern": bad[0], "kind": "nseg-big"})
     for (n, edges) in graphs.small_graphs(ctx.rng, ctx.n(20, 40), 5):
         if any(a == b for a, b in edges):
             continue
@@ -126,7 +196,9 @@ def search(ctx, why, maxcells=None):
 
 def replay(ctx, data):
     k = data.get("kind")
-    if k == "nseg-grid":
+    if k == "nseg-big":
+        bad = _check_big(data["h"], data["w"], [tuple(data["pattern"])])
+    elif k == "nseg-grid":
         bad = _check_grid(data["h"], data["w"])
     elif k == "nadj-grid":
         bad = _check_nadj(data["h"] * data["w"], graphs.grid_edges(data["h"], data["w"]), (data["h"], data["w"]))
